@@ -5,6 +5,7 @@ CONSTANTS
   MCBuild = "exc"
   EmitEdges = FALSE
   TestDefaultOn = TRUE
+  Lite = FALSE
 VIEW View
 INVARIANTS TypeOK SelValid HeapExact RegSound
 PROPERTIES Isolation PrecIndependent SelSticky SelMoves EvalPure FatalIntact FatalOnlyIfMisuse NoUseBeforeInit ReinitFresh SetThenGet
